@@ -303,7 +303,9 @@ func TestVerifC09Child(t *testing.T) {
 		}
 		timing(fmt.Sprintf("block %d", b+1))
 		latest := s.l.Latest()
-		switch s.r.Pick([]int{34, 14, 8, 16, 4, 5, 6, 8}) {
+		act := s.r.Pick([]int{34, 14, 8, 16, 4, 5, 6, 8})
+		timing(fmt.Sprintf("action %d", act))
+		switch act {
 		case 0: // keep adding while the syncer works in the background
 		case 1:
 			r := latest.SubSaturate(basics.Round(s.r.Intn(3)))
@@ -338,6 +340,9 @@ func TestVerifC09Child(t *testing.T) {
 	j.write(c, c09Line{K: "hits", Hits: verifhook.Counts()})
 	j.write(c, c09Line{K: "done"})
 	// leave without closing the ledger: process exit is one more crash point
+	if os.Getenv("VERIF_C09_TIMING") != "" {
+		return // diagnostics: let the testing package write its profiles
+	}
 	os.Exit(0)
 }
 
